@@ -27,12 +27,15 @@ class DDDIPrimitiveConfig(UDSScannerConfig):
     session: AutoInt = Field(0x01, description="The session in which the requests are made")
 
 
-def parse_definitions(value: str | tuple[int, ...], expected_len: int) -> tuple[int, ...]:
-    if isinstance(value, tuple):
+def parse_definitions(
+    value: str | tuple[int, ...] | list[int], expected_len: int
+) -> tuple[int, ...]:
+    # A list is what a stored config (META.json / run_meta) contains after json.loads()
+    if isinstance(value, tuple | list):
         if len(value) != expected_len:
             raise ValueError(f"Need exactly {expected_len} values for each definition")
 
-        return value
+        return tuple(value)
 
     values = value.split(":")
 
